@@ -5,7 +5,13 @@
 //! Every length of an axis is scaled exactly by a power of two (all axes by the same one, or each axis by its
 //! own: the x, y and depth planes of a projection are independent units), volumes are narrow relative to their
 //! offset or off-centre by a few ulps only, far/near is next to 1 or huge, fields of view are narrow (down to
-//! 2^-40 / 2^-300 rad) or next to pi, aspect ratios and viewport sizes are extreme.
+//! 2^-32 / 2^-300 rad) or next to pi, aspect ratios and viewport sizes are extreme (aspect beyond 1/eps).
+//!
+//! Ratios of two parameters are a regime of their own (no common 2^k scaling changes them): far/near runs up to
+//! 2^100 (f32) / 2^900 (f64), in particular beyond 1/eps where far - near == far in floats (and the mirror far < near
+//! for the frustum constructors); there the unit of length is chosen so that near * far ~ 1, which keeps far*near and
+//! every corner in the normal range. The depth of both the near and the far corners stays well conditioned:
+//! (far+near)/|far-near| -> 1, so the tolerance there is the plain 32 eps.
 //!
 //! Conditioning (u = eps/2; every bound below is a small multiple of u times the stated number, K2 = 32 eps
 //! leaves a factor >= 4 over the operation count):
@@ -39,17 +45,22 @@ pub(crate) struct Lim {
     k_sq: i32,
     /// log2 of the largest conditioning number admitted: K2 * eps * 2^(cond+1) <= 2^-7
     cond: i32,
-    /// log2 of the largest far/near
+    /// log2 of the largest far/near at an arbitrary unit of length
     ratio: i32,
+    /// log2 of the largest far/near at all (unit of length chosen so that near * far ~ 1: the textbook entries,
+    /// far*near in particular, and the corners stay in the normal range)
+    xratio: i32,
     /// narrowest field of view: 2^-fov rad
     fov: i32,
-    /// aspect ratios 2^-aspect .. 2^aspect
+    /// aspect ratios 2^-aspect .. 2^aspect (floats: beyond 1/eps, a ratio no common scaling reaches)
     aspect: i32,
 }
 
 pub(crate) trait RDom: Dom {
     /// bits of the mantissa (for offsets down to a few ulps of the width)
     const MANT: i32;
+    /// -log2 of `T::epsilon()`: above a ratio of 2^EPS_EXP, far - near == far in floats
+    const EPS_EXP: i32;
     fn lim() -> Lim;
     /// A value in [1, 2): a short dyadic in the exact domain, a random mantissa for floats.
     fn mant(t: &mut Tape) -> Self;
@@ -62,8 +73,10 @@ impl RDom for Rat {
     // the harness scalar): a guard relative to the volume's own size below machine epsilon is harmless in every
     // float type and is not to be reported through the exact domain; absolute guards are reached by the 2^k scaling.
     const MANT: i32 = 40;
+    // only a stratification centre here; far/near stays below 2^48 < 1/Rat::epsilon() for the reason given above
+    const EPS_EXP: i32 = 40;
     fn lim() -> Lim {
-        Lim { k_lin: 56, k_sq: 20, cond: 20, ratio: 20, fov: 12, aspect: 12 }
+        Lim { k_lin: 56, k_sq: 20, cond: 20, ratio: 20, xratio: 48, fov: 12, aspect: 12 }
     }
     fn mant(t: &mut Tape) -> Rat {
         Rat::frac(t.int(16, 31), 16)
@@ -94,6 +107,7 @@ macro_rules! rdom_float {
     ($F:ident, $mant:expr, $lim:expr) => {
         impl RDom for $F {
             const MANT: i32 = $mant;
+            const EPS_EXP: i32 = $mant;
             fn lim() -> Lim {
                 $lim
             }
@@ -126,8 +140,8 @@ macro_rules! rdom_float {
         }
     };
 }
-rdom_float!(f32, 23, Lim { k_lin: 96, k_sq: 45, cond: 10, ratio: 20, fov: 40, aspect: 20 });
-rdom_float!(f64, 52, Lim { k_lin: 960, k_sq: 450, cond: 38, ratio: 50, fov: 300, aspect: 50 });
+rdom_float!(f32, 23, Lim { k_lin: 96, k_sq: 45, cond: 10, ratio: 20, xratio: 100, fov: 32, aspect: 30 });
+rdom_float!(f64, 52, Lim { k_lin: 960, k_sq: 450, cond: 38, ratio: 50, xratio: 900, fov: 300, aspect: 100 });
 
 /// The 21 constructors of one layout, as plain arrays.
 pub(crate) trait Lay<S: Dom> {
@@ -265,32 +279,40 @@ fn cond_of<S: Dom>(lo: S, hi: S) -> f64 {
 }
 
 /// One axis of a view volume at unit scale (scaled by the caller): ordinary / narrow relative to its offset /
-/// off-centre by a few ulps only / one plane at 0 / centred; optionally reversed.
+/// off-centre by a few ulps only / one plane at 0 / one plane tiny relative to the other / centred; optionally reversed.
 fn gen_axis<S: RDom>(t: &mut Tape, cx: &mut Cx, allow_reversed: bool) -> (S, S) {
     let lim = S::lim();
     let h = S::q(t.int(1, 40), t.pick(&[1i64, 2, 4, 8, 3, 5]));
     let neg = t.bool();
-    let c = match t.below(8) {
-        0 | 1 => h * S::q(t.int(-20, 20), t.pick(&[3i64, 4, 5, 7])),
-        2 | 3 => {
-            cx.label("width << offset");
-            h * S::mant(t) * pow2::<S>(t.int(1, lim.cond as i64) as i32)
-        }
-        4 | 5 => {
-            cx.label("offset << width");
-            h * S::mant(t) * pow2::<S>(-(t.int(1, (S::MANT + 2) as i64) as i32))
-        }
-        6 => {
-            cx.label("one plane at 0");
-            h
-        }
-        _ => {
-            cx.label("centred");
-            S::zero()
-        }
+    let sel = t.below(8);
+    let (lo, hi) = if sel == 7 && t.bool() {
+        // |lo| / |hi| = 2^-rho down to below machine epsilon (hi - lo == hi in floats), either sign of lo
+        cx.label("one plane << the other");
+        let lo = h * S::mant(t) * pow2::<S>(-(t.int(1, (S::MANT + 4) as i64) as i32));
+        (if t.bool() { -lo } else { lo }, h + h)
+    } else {
+        let c = match sel {
+            0 | 1 => h * S::q(t.int(-20, 20), t.pick(&[3i64, 4, 5, 7])),
+            2 | 3 => {
+                cx.label("width << offset");
+                h * S::mant(t) * pow2::<S>(t.int(1, lim.cond as i64) as i32)
+            }
+            4 | 5 => {
+                cx.label("offset << width");
+                h * S::mant(t) * pow2::<S>(-(t.int(1, (S::MANT + 2) as i64) as i32))
+            }
+            6 => {
+                cx.label("one plane at 0");
+                h
+            }
+            _ => {
+                cx.label("centred");
+                S::zero()
+            }
+        };
+        (c - h, c + h)
     };
-    let c = if neg { -c } else { c };
-    let (lo, hi) = (c - h, c + h);
+    let (lo, hi) = if neg { (-hi, -lo) } else { (lo, hi) };
     if allow_reversed && t.chance(48) {
         cx.label("reversed interval");
         (hi, lo)
@@ -299,27 +321,55 @@ fn gen_axis<S: RDom>(t: &mut Tape, cx: &mut Cx, allow_reversed: bool) -> (S, S) 
     }
 }
 
-/// near, far > 0 at unit scale: ordinary / far next to near / far/near huge; optionally far < near.
-fn gen_depth<S: RDom>(t: &mut Tape, cx: &mut Cx, allow_reversed: bool) -> (S, S) {
+/// Depth planes of a frustum / perspective volume at unit scale, `near < far` (the caller scales, then swaps if `reversed`).
+struct Depth<S> {
+    n: S,
+    f: S,
+    /// log2(far/near) in the extreme-ratio regime (then the caller must pick the unit of length so that
+    /// near * far ~ 1), 0 otherwise
+    xr: i32,
+    reversed: bool,
+}
+
+/// near, far > 0 at unit scale: ordinary / far next to near / far/near huge / far/near extreme (around and far
+/// beyond 1/eps, where far - near == far in floats); optionally far < near.
+fn gen_depth<S: RDom>(t: &mut Tape, cx: &mut Cx, allow_reversed: bool) -> Depth<S> {
     let lim = S::lim();
     let n = S::q(t.int(1, 30), t.pick(&[1i64, 2, 3, 4, 5, 10, 20]));
-    let f = match t.below(4) {
-        0 => n + n * S::q(t.int(1, 60), t.pick(&[1i64, 1, 2, 3, 7])),
-        1 => {
+    let mut xr = 0;
+    let f = match t.below(8) {
+        0 | 1 => n + n * S::q(t.int(1, 60), t.pick(&[1i64, 1, 2, 3, 7])),
+        2 => {
             cx.label("far next to near");
             n + n * S::mant(t) * pow2::<S>(-(t.int(1, (lim.cond - 1) as i64) as i32))
         }
-        _ => {
+        3 | 4 => {
             cx.label("far/near >= 2^6");
             n * S::mant(t) * pow2::<S>(t.int(6, lim.ratio as i64) as i32)
         }
+        _ => {
+            let e = S::EPS_EXP as i64;
+            xr = match t.below(4) {
+                0 => t.int(e - 2, (e + 6).min(lim.xratio as i64)),
+                1 => t.int(lim.ratio as i64, (2 * e + 8).min(lim.xratio as i64)),
+                _ => t.int(lim.ratio as i64, lim.xratio as i64),
+            } as i32;
+            cx.label(if xr > S::EPS_EXP + 1 { "far/near > 1/eps" } else { "far/near huge .. 1/eps" });
+            n * S::mant(t) * pow2::<S>(xr)
+        }
     };
-    if allow_reversed && t.chance(32) {
+    let reversed = allow_reversed && t.chance(32);
+    if reversed {
         cx.label("far < near");
-        (f, n)
-    } else {
-        (n, f)
     }
+    Depth { n, f, xr, reversed }
+}
+
+/// Exponent of the unit of length of the depth planes in the extreme-ratio regime: near ~ 2^(-xr/2), far ~ 2^(xr/2)
+/// (up to a jitter), so that far * near and every corner coordinate stay in the normal range.
+fn extreme_kz<S: RDom>(t: &mut Tape, xr: i32) -> i32 {
+    let j = (S::lim().k_sq / 8) as i64;
+    -(xr / 2) + t.int(-j, j) as i32
 }
 
 /// Label the exact blind spot: an off-centre axis whose plane sum is below machine epsilon in absolute terms.
@@ -335,8 +385,14 @@ fn close<S: Dom>(cx: &mut Cx, got: S, want: S, cond: f64) -> bool {
     vkit::dom::close::<S>(cx, got, want, cond.max(1.0), K2)
 }
 
-/// Entry-wise |a - b| <= K2 eps cond[row] max(|a|, |b|) (exact domains: equality).
-fn mat_rel<S: Dom>(cx: &mut Cx, what: &str, a: &M4<S>, b: &M4<S>, cond: [f64; 4]) -> CaseResult {
+/// Entry-wise |a - b| <= K2 eps cond[row] max(|a|, |b|, floor[column]) (exact domains: equality).
+///
+/// `floor[j]` is the magnitude below which entry (i, j) cannot move any corner of the view volume by more than the
+/// corner tolerance: min over the corners of (natural magnitude of the clip coordinates) / |coordinate j|. Two
+/// matrices that differ by less are the same map on the view volume as far as the property can tell, so an entry
+/// that is tiny relative to its floor (a translation of 1e-17 clip units, far/(far-near) for far << near) is not
+/// compared relative to itself.
+fn mat_rel<S: Dom>(cx: &mut Cx, what: &str, a: &M4<S>, b: &M4<S>, cond: [f64; 4], floor: [f64; 4]) -> CaseResult {
     for i in 0..4 {
         for j in 0..4 {
             cx.count();
@@ -347,7 +403,7 @@ fn mat_rel<S: Dom>(cx: &mut Cx, what: &str, a: &M4<S>, b: &M4<S>, cond: [f64; 4]
                 if x == y {
                     true
                 } else {
-                    let tol = K2 * S::eps() * cond[i].max(1.0) * x.abs().max(y.abs());
+                    let tol = K2 * S::eps() * cond[i].max(1.0) * x.abs().max(y.abs()).max(floor[j]);
                     let d = (x - y).abs();
                     if d.is_finite() {
                         cx.note_err(d / tol);
@@ -356,7 +412,7 @@ fn mat_rel<S: Dom>(cx: &mut Cx, what: &str, a: &M4<S>, b: &M4<S>, cond: [f64; 4]
                 }
             };
             if !ok {
-                fail!("{}: entry ({},{}) {:?} vs {:?} (relative tolerance {} eps * cond {:.3e});\n  left  {:?}\n  right {:?}", what, i, j, a[i][j], b[i][j], K2, cond[i], a, b);
+                fail!("{}: entry ({},{}) {:?} vs {:?} (tolerance {} eps * cond {:.3e} relative to max(entry, floor {:.3e}));\n  left  {:?}\n  right {:?}", what, i, j, a[i][j], b[i][j], K2, cond[i], floor[j], a, b);
             }
         }
     }
@@ -405,6 +461,20 @@ impl<S: Dom> Planes<S> {
     }
 }
 
+impl<S: Dom> Planes<S> {
+    /// `mat_rel` floors of an orthographic matrix: clip coordinates are O(1), corners are (l|r, b|t, n|f, 1).
+    fn floor_ortho(&self) -> [f64; 4] {
+        let mx = |a: S, b: S| a.f().abs().max(b.f().abs());
+        [1.0 / mx(self.l, self.r), 1.0 / mx(self.b, self.t), 1.0 / mx(self.n, self.f), 1.0]
+    }
+    /// `mat_rel` floors of a perspective matrix: corners are (x d/n, y d/n, +-d, 1) with clip coordinates O(d).
+    fn floor_persp(&self) -> [f64; 4] {
+        let mx = |a: S, b: S| a.f().abs().max(b.f().abs());
+        let n = self.n.f().abs();
+        [n / mx(self.l, self.r), n / mx(self.b, self.t), 1.0, n.min(self.f.f().abs())]
+    }
+}
+
 /// All eight corners. `persp`: x, y grow with d / near.
 fn corners<S: Dom>(cx: &mut Cx, what: &str, m: &M4<S>, pl: &Planes<S>, lh: bool, persp: bool, zo: bool, cond: [f64; 3]) -> CaseResult {
     let (one, zero) = (S::one(), S::zero());
@@ -443,8 +513,8 @@ pub(crate) fn ortho<S: RDom, L: Lay<S>>(t: &mut Tape, cx: &mut Cx) -> CaseResult
         corners(cx, ORTHO[i], &m[i], &pl, is_lh(i), false, is_zo(i), cond)?;
     }
     let cm = [cond[0], cond[1], cond[2], 1.0];
-    mat_rel(cx, "orthographic_lh_zo = orthographic_rh_zo * z-mirror", &m[0], &col2_negated(&m[2]), cm)?;
-    mat_rel(cx, "orthographic_lh_no = orthographic_rh_no * z-mirror", &m[1], &col2_negated(&m[3]), cm)?;
+    mat_rel(cx, "orthographic_lh_zo = orthographic_rh_zo * z-mirror", &m[0], &col2_negated(&m[2]), cm, pl.floor_ortho())?;
+    mat_rel(cx, "orthographic_lh_no = orthographic_rh_no * z-mirror", &m[1], &col2_negated(&m[3]), cm, pl.floor_ortho())?;
     // without depth planes: x, y mapped, z and w left alone
     let wd = L::ortho(4, o);
     let (one, z) = (S::one(), S::any(t, 20) * pz);
@@ -461,18 +531,27 @@ pub(crate) fn ortho<S: RDom, L: Lay<S>>(t: &mut Tape, cx: &mut Cx) -> CaseResult
 }
 
 pub(crate) fn frustum<S: RDom, L: Lay<S>>(t: &mut Tape, cx: &mut Cx) -> CaseResult {
-    let ks = axis_exps(t, cx, S::lim().k_sq);
+    let mut ks = axis_exps(t, cx, S::lim().k_sq);
     let (l, r) = gen_axis::<S>(t, cx, true);
     let (b, tp) = gen_axis::<S>(t, cx, true);
-    let (n, f) = gen_depth::<S>(t, cx, true);
+    let dp = gen_depth::<S>(t, cx, true);
+    if dp.xr > 0 {
+        // extreme far/near: near * far ~ 1, x and y planes at the scale of the near plane (the far-plane corners
+        // are the near-plane ones times far/near)
+        let kz = extreme_kz::<S>(t, dp.xr);
+        let kn = if dp.reversed { kz + dp.xr } else { kz };
+        let j = (S::lim().k_sq / 8) as i64;
+        ks = [kn + t.int(-j, j) as i32, kn + t.int(-j, j) as i32, kz];
+    }
     let (px, py, pz) = (pow2::<S>(ks[0]), pow2::<S>(ks[1]), pow2::<S>(ks[2]));
-    let pl = Planes { l: l * px, r: r * px, b: b * py, t: tp * py, n: n * pz, f: f * pz };
+    let (n, f) = if dp.reversed { (dp.f * pz, dp.n * pz) } else { (dp.n * pz, dp.f * pz) };
+    let pl = Planes { l: l * px, r: r * px, b: b * py, t: tp * py, n, f };
     if pl.l == pl.r || pl.b == pl.t || pl.n == pl.f {
         discard!("interval collapsed by rounding");
     }
     label_sum(cx, pl.l, pl.r, "off-centre with |plane sum| < eps");
     label_sum(cx, pl.b, pl.t, "off-centre with |plane sum| < eps");
-    if ks[0] != ks[2] || ks[1] != ks[2] {
+    if dp.xr == 0 && (ks[0] != ks[2] || ks[1] != ks[2]) {
         cx.label(if ks[0] < ks[2] { "narrow frustum (x planes << near)" } else { "wide frustum (x planes >> near)" });
     }
     cx.set_nontrivial((pl.l + pl.r) != S::zero() && (pl.b + pl.t) != S::zero());
@@ -485,8 +564,8 @@ pub(crate) fn frustum<S: RDom, L: Lay<S>>(t: &mut Tape, cx: &mut Cx) -> CaseResu
         corners(cx, FRUSTUM[i], &m[i], &pl, is_lh(i), true, is_zo(i), cond)?;
     }
     let cm = [cond[0], cond[1], cond[2], 1.0];
-    mat_rel(cx, "frustum_lh_zo = frustum_rh_zo * z-mirror", &m[0], &col2_negated(&m[2]), cm)?;
-    mat_rel(cx, "frustum_lh_no = frustum_rh_no * z-mirror", &m[1], &col2_negated(&m[3]), cm)?;
+    mat_rel(cx, "frustum_lh_zo = frustum_rh_zo * z-mirror", &m[0], &col2_negated(&m[2]), cm, pl.floor_persp())?;
+    mat_rel(cx, "frustum_lh_no = frustum_rh_no * z-mirror", &m[1], &col2_negated(&m[3]), cm, pl.floor_persp())?;
     Ok(())
 }
 
@@ -498,6 +577,9 @@ fn gen_aspect<S: RDom>(t: &mut Tape, cx: &mut Cx) -> S {
             let a = t.int(3, S::lim().aspect as i64) as i32;
             let wide = t.bool();
             cx.label(if wide { "aspect >= 2^3" } else { "aspect <= 2^-3" });
+            if a > S::EPS_EXP {
+                cx.label("aspect beyond 1/eps or eps");
+            }
             S::mant(t) * pow2::<S>(if wide { a } else { -a })
         }
     }
@@ -515,11 +597,16 @@ pub(crate) fn persp<S: RDom, L: Lay<S>>(t: &mut Tape, cx: &mut Cx) -> CaseResult
         _ => "fov ordinary",
     });
     let aspect = gen_aspect::<S>(t, cx);
-    let (n, f) = gen_depth::<S>(t, cx, false);
+    let dp = gen_depth::<S>(t, cx, false);
+    let (n, f) = (dp.n, dp.f);
     // unit of length of near / far (x, y are implied by the field of view)
-    let kz = match t.below(4) {
-        0 => 0,
-        _ => strat_exp(t, lim.k_sq),
+    let kz = if dp.xr > 0 {
+        extreme_kz::<S>(t, dp.xr)
+    } else {
+        match t.below(4) {
+            0 => 0,
+            _ => strat_exp(t, lim.k_sq),
+        }
     };
     cx.label(scale_label(kz));
     let pz = pow2::<S>(kz);
@@ -549,19 +636,20 @@ pub(crate) fn persp<S: RDom, L: Lay<S>>(t: &mut Tape, cx: &mut Cx) -> CaseResult
     let cm = [cf, cf, cz, 1.0];
     let pl = Planes { l: -(top * aspect), r: top * aspect, b: -top, t: top, n, f };
     let pl_wh = Planes { l: -(top * aspect_wh), r: top * aspect_wh, ..pl };
+    let (fl, fl_wh) = (pl.floor_persp(), pl_wh.floor_persp());
     let p: Vec<M4<S>> = (0..4).map(|i| L::persp(i, fov, aspect, n, f)).collect();
     let pf: Vec<M4<S>> = (0..4).map(|i| L::persp_fov(i, fov, width, height, n, f)).collect();
     for i in 0..4 {
         corners(cx, PERSP[i], &p[i], &pl, is_lh(i), true, is_zo(i), cond)?;
         corners(cx, PERSP_FOV[i], &pf[i], &pl_wh, is_lh(i), true, is_zo(i), cond)?;
         // a perspective matrix is the frustum matrix of the symmetric planes it implies
-        mat_rel(cx, P_EQ_FRUSTUM[i], &p[i], &L::frustum(i, pl.vek()), cm)?;
-        mat_rel(cx, PF_EQ_FRUSTUM[i], &pf[i], &L::frustum(i, pl_wh.vek()), cm)?;
-        mat_rel(cx, PF_EQ_P[i], &pf[i], &L::persp(i, fov, aspect_wh, n, f), cm)?;
+        mat_rel(cx, P_EQ_FRUSTUM[i], &p[i], &L::frustum(i, pl.vek()), cm, fl)?;
+        mat_rel(cx, PF_EQ_FRUSTUM[i], &pf[i], &L::frustum(i, pl_wh.vek()), cm, fl_wh)?;
+        mat_rel(cx, PF_EQ_P[i], &pf[i], &L::persp(i, fov, aspect_wh, n, f), cm, fl_wh)?;
     }
     for i in 0..2 {
-        mat_rel(cx, P_MIRROR[i], &p[i], &col2_negated(&p[i + 2]), cm)?;
-        mat_rel(cx, PF_MIRROR[i], &pf[i], &col2_negated(&pf[i + 2]), cm)?;
+        mat_rel(cx, P_MIRROR[i], &p[i], &col2_negated(&p[i + 2]), cm, fl)?;
+        mat_rel(cx, PF_MIRROR[i], &pf[i], &col2_negated(&pf[i + 2]), cm, fl_wh)?;
     }
     // infinite perspective: near-plane corners -> (-+1, -+1, -1) for every epsilon, depth(d) = 1 - 2 near / d
     let eps = match t.below(4) {
@@ -572,16 +660,17 @@ pub(crate) fn persp<S: RDom, L: Lay<S>>(t: &mut Tape, cx: &mut Cx) -> CaseResult
     let inf = [L::inf(0, fov, aspect, n, None), L::inf(1, fov, aspect, n, None)];
     let tw = [L::inf(0, fov, aspect, n, Some(eps)), L::inf(1, fov, aspect, n, Some(eps))];
     let cm1 = [cf, cf, 1.0, 1.0];
-    mat_rel(cx, "infinite_perspective_lh = tweaked(eps = 0)", &inf[0], &L::inf(0, fov, aspect, n, Some(zero)), cm1)?;
-    mat_rel(cx, "infinite_perspective_rh = tweaked(eps = 0)", &inf[1], &L::inf(1, fov, aspect, n, Some(zero)), cm1)?;
-    mat_rel(cx, "infinite_perspective_lh = infinite_perspective_rh * z-mirror", &inf[0], &col2_negated(&inf[1]), cm1)?;
-    mat_rel(cx, "tweaked_infinite_perspective_lh = tweaked_infinite_perspective_rh * z-mirror", &tw[0], &col2_negated(&tw[1]), cm1)?;
+    mat_rel(cx, "infinite_perspective_lh = tweaked(eps = 0)", &inf[0], &L::inf(0, fov, aspect, n, Some(zero)), cm1, fl)?;
+    mat_rel(cx, "infinite_perspective_rh = tweaked(eps = 0)", &inf[1], &L::inf(1, fov, aspect, n, Some(zero)), cm1, fl)?;
+    mat_rel(cx, "infinite_perspective_lh = infinite_perspective_rh * z-mirror", &inf[0], &col2_negated(&inf[1]), cm1, fl)?;
+    mat_rel(cx, "tweaked_infinite_perspective_lh = tweaked_infinite_perspective_rh * z-mirror", &tw[0], &col2_negated(&tw[1]), cm1, fl)?;
     // entry-wise limit far -> infinity of perspective_rh_no: m22 -> -1, m23 -> -2 near, the rest unchanged
     let mut limit = p[3];
     limit[2][2] = -one;
     limit[2][3] = -two * n;
-    mat_rel(cx, "infinite_perspective_rh = limit of perspective_rh_no as far -> infinity", &inf[1], &limit, cm1)?;
-    let d1 = n * S::mant(t) * pow2::<S>(t.int(0, lim.ratio as i64) as i32);
+    mat_rel(cx, "infinite_perspective_rh = limit of perspective_rh_no as far -> infinity", &inf[1], &limit, cm1, fl)?;
+    // a deeper corner; in the extreme-ratio regime (near ~ 2^(-xr/2)) as deep as the far plane, beyond near / eps
+    let d1 = n * S::mant(t) * pow2::<S>(t.int(0, if dp.xr > 0 { dp.xr } else { lim.ratio } as i64) as i32);
     for (names, ms, plain) in [(&INF, &inf, true), (&TW_INF, &tw, false)] {
         for (i, m) in ms.iter().enumerate() {
             let lh = i == 0;
@@ -609,9 +698,9 @@ pub(crate) fn checks() -> Vec<Check> {
             v.push(Check { name: $name, about: $about, kind: Kind::Tape { len: 96, quick: $q, thorough: $th, f: $f } });
         };
     }
-    let o = "regimes, orthographic_{lh,rh}_{zo,no} + without_depth_planes: corners -> clip corners with every axis scaled exactly by 2^k (one k for all lengths, or one per axis: tiny .. huge), volumes narrow relative to their offset, off-centre by a few ulps, a plane at 0, reversed; tolerance 32 eps * (|lo|+|hi|)/|hi-lo| per axis; lh = rh * z-mirror";
-    let f = "regimes, frustum_{lh,rh}_{zo,no}: corners -> clip corners with x / y / depth planes scaled exactly by 2^k (all lengths, or per axis: narrow and wide frusta), off-centre shapes as for ortho, far next to near, far/near huge, far < near; tolerance 32 eps * conditioning per axis; lh = rh * z-mirror";
-    let p = "regimes, perspective_*, perspective_fov_*, (tweaked_)infinite_perspective_*: fov narrow (log-uniform down to 2^-40 / 2^-300 rad, round degrees) and next to pi, aspect 2^+-k, viewport sizes 2^+-k, near/far scaled by 2^k, far next to near or far/near huge: corners of the implied volume -> clip corners within 32 eps * fov/sin(fov) (x, y) and 32 eps * (f+n)/(f-n) (depth); = frustum_* of the implied planes entry-wise (relative); fov(w,h) = perspective(w/h); lh = rh * z-mirror; infinite: near corners, depth(d) = 1 - 2n/d";
+    let o = "regimes, orthographic_{lh,rh}_{zo,no} + without_depth_planes: corners -> clip corners with every axis scaled exactly by 2^k (one k for all lengths, or one per axis: tiny .. huge), volumes narrow relative to their offset, off-centre by a few ulps, a plane at 0, one plane below eps times the other, reversed; tolerance 32 eps * (|lo|+|hi|)/|hi-lo| per axis; lh = rh * z-mirror";
+    let f = "regimes, frustum_{lh,rh}_{zo,no}: corners -> clip corners with x / y / depth planes scaled exactly by 2^k (all lengths, or per axis: narrow and wide frusta), off-centre shapes as for ortho, far next to near, far/near huge or extreme (up to 2^100 f32 / 2^900 f64, beyond 1/eps, with near * far ~ 1 and the x, y planes at the scale of near), far < near (same ratios mirrored); tolerance 32 eps * conditioning per axis; lh = rh * z-mirror";
+    let p = "regimes, perspective_*, perspective_fov_*, (tweaked_)infinite_perspective_*: fov narrow (log-uniform down to 2^-32 / 2^-300 rad, round degrees) and next to pi, aspect 2^+-k (beyond 1/eps), viewport sizes 2^+-k, near/far scaled by 2^k, far next to near, far/near huge, far/near extreme (up to 2^100 / 2^900, beyond 1/eps where far - near == far): corners of the implied volume -> clip corners within 32 eps * fov/sin(fov) (x, y) and 32 eps * (f+n)/(f-n) (depth); = frustum_* of the implied planes entry-wise (relative); fov(w,h) = perspective(w/h); lh = rh * z-mirror; infinite: near corners, depth(d) = 1 - 2n/d";
     tape!("regime-ortho-rows-f32", o, 20_000, 2_000_000, ortho::<f32, Rows>);
     tape!("regime-ortho-cols-f32", o, 20_000, 2_000_000, ortho::<f32, Cols>);
     tape!("regime-ortho-rows-f64", o, 20_000, 2_000_000, ortho::<f64, Rows>);
